@@ -783,9 +783,26 @@ void tickit_term_input_push_bytes(TickitTerm *tt, const char *bytes, size_t len)
   check_resize(tt);
 
   TermKey *tk = get_termkey(tt);
-  termkey_push_bytes(tk, bytes, len);
 
-  get_keys(tt, tk);
+  /* termkey's buffer is of limited size and termkey_push_bytes() only takes
+   * what fits into it. Keep feeding and draining until all has been consumed
+   */
+  while(1) {
+    size_t pushed = termkey_push_bytes(tk, bytes, len);
+    if(pushed == (size_t)-1)
+      pushed = 0; /* buffer already full */
+
+    bytes += pushed;
+    len   -= pushed;
+
+    size_t space = termkey_get_buffer_remaining(tk);
+    get_keys(tt, tk);
+
+    if(!len)
+      break;
+    if(!pushed && termkey_get_buffer_remaining(tk) == space)
+      break; /* the buffer is full of a single unfinished sequence */
+  }
 }
 
 void tickit_term_input_readable(TickitTerm *tt)
